@@ -45,7 +45,9 @@ BigNumTok == <<"1", ".", "6", "7", "7", "7", "2", "1", "7", "e", "+", "0", "7">>
 LongNum == <<"0", "0", "0", "0", "0", "0", "0", "0", "0", "0", "0", "0", "0", "0", "0", "0", "0", "0", "0", "0", "0", "0", "0", "4", "2">>   \* 25 characters: longer than any numeral strconv PRINTS, still a numeral it parses
 Big19 == <<"1", "0", "0", "0", "0", "0", "0", "0", "0", "0", "0", "0", "0", "0", "0", "0", "0", "0", "0", "0">>     \* 1e19: integral, beyond int64
 Big19Tok == <<"1", "e", "+", "1", "9">>
-CastDefault(s) == CASE s = LongNum -> VF(<<"4", "2">>) [] s = <<"4", "2">> -> VF(s) [] s = Big19 -> VF(Big19Tok) [] s = Big19Tok -> VF(Big19Tok) [] s = <<"7">> -> VF(s) [] s = <<"1">> -> VF(s) [] s = BigNum -> VF(BigNumTok) [] s = BigNumTok -> VF(BigNumTok) [] s = <<"t", "r", "u", "e">> -> VB(s) [] OTHER -> VS(s)
+Neg17 == <<"-", "1", "2", "3", "4", "5", "6", "7", "8", "9", "0", "1", "2", "3", "4", "5", "6", "7">>     \* 17 digits and a sign: its float64 prints LONGER than it reads
+Neg17Tok == <<"-", "1", ".", "2", "3", "4", "5", "6", "7", "8", "9", "0", "1", "2", "3", "4", "5", "6", "8", "e", "+", "1", "6">>
+CastDefault(s) == CASE s = Neg17 -> VF(Neg17Tok) [] s = Neg17Tok -> VF(Neg17Tok) [] s = LongNum -> VF(<<"4", "2">>) [] s = <<"4", "2">> -> VF(s) [] s = Big19 -> VF(Big19Tok) [] s = Big19Tok -> VF(Big19Tok) [] s = <<"7">> -> VF(s) [] s = <<"1">> -> VF(s) [] s = BigNum -> VF(BigNumTok) [] s = BigNumTok -> VF(BigNumTok) [] s = <<"t", "r", "u", "e">> -> VB(s) [] OTHER -> VS(s)
 ScalarOf(o, cs) == LET s == IF o.escdec THEN XmlEscape(cs) ELSE cs IN
                    IF o.cast THEN CastDefault(s) ELSE VS(s)
 
